@@ -1036,17 +1036,21 @@ fn miri(out: &mut Out, args: &Args) -> Value {
     let dir = run::verif_root().join("harness/san-c18");
     let target = run::verif_root().join("harness/target/miri-c18");
     let mut runs = vec![];
-    // default borrow model (Stacked Borrows), then Tree Borrows; 200 records each
-    for flags in ["-Zmiri-disable-isolation", "-Zmiri-disable-isolation -Zmiri-tree-borrows"] {
+    // default borrow model (Stacked Borrows), then Tree Borrows; 200 records each (quick: one
+    // run of 12 records after the concurrent first-use scenario)
+    let quick = args.tier == vlib::Tier::Quick;
+    let nrec = if quick { "12" } else { "200" };
+    let flag_sets: &[&str] = if quick { &["-Zmiri-disable-isolation"] } else { &["-Zmiri-disable-isolation", "-Zmiri-disable-isolation -Zmiri-tree-borrows", "-Zmiri-disable-isolation -Zmiri-seed=7 -Zmiri-preemption-rate=0.05"] };
+    for flags in flag_sets.iter().copied() {
         let t0 = Instant::now();
         let o = std::process::Command::new("cargo")
-            .args(["+nightly", "miri", "run", "--offline", "--", &args.seed.to_string(), "200"])
+            .args(["+nightly", "miri", "run", "--offline", "--", &args.seed.to_string(), nrec])
             .current_dir(&dir)
             .env("CARGO_TARGET_DIR", &target)
             .env("MIRIFLAGS", flags)
             .env_remove("RUSTFLAGS")
             .output();
-        let cmd = format!("cd {} && CARGO_TARGET_DIR={} MIRIFLAGS='{flags}' cargo +nightly miri run --offline -- {} 200", dir.display(), target.display(), args.seed);
+        let cmd = format!("cd {} && CARGO_TARGET_DIR={} MIRIFLAGS='{flags}' cargo +nightly miri run --offline -- {} {nrec}", dir.display(), target.display(), args.seed);
         let mut info = Map::new();
         info.insert("cmd".into(), json!(cmd));
         match o {
@@ -1144,7 +1148,7 @@ fn parent(args: &Args) {
         }
     }
 
-    if args.tier == run::Tier::Thorough && std::env::var_os("VERIF_SKIP_MIRI").is_none() {
+    if std::env::var_os("VERIF_SKIP_MIRI").is_none() {
         let info = miri(&mut out, args);
         extra.insert("miri".into(), info);
     }
